@@ -467,6 +467,30 @@ func vFlushSensitive(s *vtraffic.Scenario, caps []int) map[string]bool {
 	return out
 }
 
+// vSteerStaleSplit moves a plan away from the shape of the open finding "a late
+// capture fills a >=5 min hole of a flow": first the same batch sizes in
+// chronological order (by first packet of the capture), and if a hole is still
+// filled later (capture files overlapping in time), one single import.
+func vSteerStaleSplit(s *vtraffic.Scenario, plan *vPlan) bool {
+	if !vHoleFilledLater(s, plan) {
+		return false
+	}
+	sorted := append([]int(nil), plan.Arrival...)
+	sort.Ints(sorted)
+	plan.Arrival = sorted
+	k := 0
+	for bi := range plan.Batches {
+		for j := range plan.Batches[bi] {
+			plan.Batches[bi][j] = sorted[k]
+			k++
+		}
+	}
+	if vHoleFilledLater(s, plan) {
+		plan.Batches = [][]int{sorted}
+	}
+	return true
+}
+
 // ---------------------------------------------------------------------------------------------
 // import plans
 
@@ -481,8 +505,16 @@ type vPlan struct {
 func vSplit(rt *rapid.T, arrival []int, oneShotWeight int) [][]int {
 	var batches [][]int
 	cur := []int{arrival[0]}
-	// 0: all at once, 1..3: one by one, else generated
-	mode := rapid.IntRange(1-oneShotWeight, 7).Draw(rt, "batching")
+	// of 8 equally likely modes: the first oneShotWeight all at once, three one by one, the rest generated
+	// (assembled from fair bits: rapid's integer generators favour small values)
+	u := 0
+	for i := 0; i < 3; i++ {
+		u <<= 1
+		if rapid.Bool().Draw(rt, "batching") {
+			u |= 1
+		}
+	}
+	mode := u - oneShotWeight + 1 // < 1: all at once, 1..3: one by one, > 3: generated
 	for _, c := range arrival[1:] {
 		split := (mode >= 1 && mode <= 3) || (mode > 3 && rapid.Bool().Draw(rt, "new batch"))
 		if split {
@@ -526,6 +558,13 @@ func vTrafficLabels(c *vlib.Case, s *vtraffic.Scenario) vtraffic.Stats {
 	c.LabelIf(st.SpanningCaptures > 0, "flow-spans-captures")
 	c.LabelIf(st.Interleaved > 0, "interleaved")
 	c.LabelIf(st.DurationUS > 5*60*1000000, "scenario>5min")
+	c.LabelIf(st.LongTCP > 0, "tcp-flow>5min")
+	c.LabelIf(st.LongUDP > 0, "udp-flow>5min")
+	c.LabelIf(s.Slow, "pace:slow")
+	c.LabelIf(s.Overlapping, "layout:captures-overlap-in-time")
+	for _, l := range s.Layout {
+		c.Label("layout:sensors-" + l)
+	}
 	c.LabelIf(len(s.Captures) >= 2, "captures>=2")
 	for _, cp := range s.Captures {
 		c.LabelIf(cp.PcapNG, "pcapng")
@@ -592,9 +631,8 @@ func vCheckClassification(res *vImportResult, before, after *vVisible) string {
 // C05
 
 // open findings: ids filed in known_findings.json under the property itself
-// (VERIF_OPEN_FINDINGS, set by the driver), under a property whose traffic is
-// reused (VERIF_ALSO_OPEN, set by bin/conf/C08.py) plus, for experiments before
-// an entry is filed, VERIF_ASSUME_OPEN.
+// or any other property (VERIF_OPEN_FINDINGS, set by the driver) plus, for
+// experiments before an entry is filed, VERIF_ASSUME_OPEN.
 const (
 	vFindingSeqWrap      = "F-C05-tcp-seq-wrap-disorder"
 	vFindingSnapComplete = "F-C08-snapshot-forgets-closed-connection"
@@ -603,7 +641,7 @@ const (
 
 func vOpen() map[string]bool {
 	open := vlib.OpenFindings()
-	for _, f := range strings.Split(os.Getenv("VERIF_ASSUME_OPEN")+","+os.Getenv("VERIF_ALSO_OPEN"), ",") {
+	for _, f := range strings.Split(os.Getenv("VERIF_ASSUME_OPEN"), ",") {
 		if f != "" {
 			open[f] = true
 		}
@@ -656,6 +694,10 @@ func TestVerifC05(t *testing.T) {
 			plan.Arrival = append(plan.Arrival, i)
 		}
 		plan.Batches = vSplit(rt, plan.Arrival, 2)
+		if open[vFindingStaleSplit] && vSteerStaleSplit(s, plan) {
+			// only possible when capture files overlap in time
+			c.Count("excluded_known", 1)
+		}
 		vRestarts(rt, plan)
 		c.Render(func() any { return map[string]any{"traffic": s.Render(), "plan": plan} })
 		st := vTrafficLabels(c, s)
@@ -783,19 +825,8 @@ func TestVerifC08(t *testing.T) {
 			plan.Arrival = rapid.Permutation(sel).Draw(rt, "arrival order")
 		}
 		plan.Batches = vSplit(rt, plan.Arrival, 1)
-		if open[vFindingStaleSplit] && vHoleFilledLater(s, plan) {
-			// steer away: same batch sizes, chronological arrival (holes are then never filled later)
+		if open[vFindingStaleSplit] && vSteerStaleSplit(s, plan) {
 			c.Count("excluded_known", 1)
-			sorted := append([]int(nil), plan.Arrival...)
-			sort.Ints(sorted)
-			plan.Arrival = sorted
-			k := 0
-			for bi := range plan.Batches {
-				for j := range plan.Batches[bi] {
-					plan.Batches[bi][j] = sorted[k]
-					k++
-				}
-			}
 		}
 		vRestarts(rt, plan)
 		plan.Interval = rapid.SampledFrom(vIntervals).Draw(rt, "snapshot interval")
@@ -977,12 +1008,8 @@ func TestVerifC08Large(t *testing.T) {
 		for _, a := range plan.Arrival {
 			plan.Batches = append(plan.Batches, []int{a})
 		}
-		if open[vFindingStaleSplit] && vHoleFilledLater(s, plan) {
+		if open[vFindingStaleSplit] && vSteerStaleSplit(s, plan) {
 			c.Count("excluded_known", 1)
-			sort.Ints(plan.Arrival)
-			for i, a := range plan.Arrival {
-				plan.Batches[i] = []int{a}
-			}
 		}
 		vRestarts(rt, plan)
 		c.Render(func() any {
@@ -999,6 +1026,7 @@ func TestVerifC08Large(t *testing.T) {
 		chrono := sort.IntsAreSorted(plan.Arrival)
 		c.LabelIf(!chrono, "arrival-out-of-order")
 		c.Labelf("captures:%d", len(s.Captures))
+		c.LabelIf(s.Overlapping, "layout:captures-overlap-in-time")
 		out := vRunC08(s, plan, c)
 		if out.msg != "" {
 			rt.Fatalf("%s", out.msg)
